@@ -1,4 +1,4 @@
-HOOK_COMMITS = []
+HOOK_COMMITS = ["0ac9d15"]
 
 CLAIMED = {
  "C20": {
@@ -8,6 +8,16 @@ CLAIMED = {
  },
 }
 
+_LEDGER_NOTE = ("Bounded scripts (<=3 postings, 2-3 accounts, 3 commodities, small values); decimal values far inside the 96-bit range; "
+                "the specification permits accepting or rejecting an implied exchange; hooks (--cfg okane_verif) log after the state change; "
+                "trusted: rust_decimal arithmetic/rounding at the points exercised, annotate-snippets rendering for line extraction.")
+_LEDGER_TECH = "TLA+ model checking (TLC) of spec/Ledger.tla + replay of all enumerated behaviours into report::process + TLC trace validation (LedgerTrace.tla) of executions recorded from the hooked code"
+CLAIMED.update({
+ "C01": {"text": "TLC checks AcceptedBalanced / RejectJustified / NoStuck on every state of the bounded book-keeping model (scripts Plain, Round, CostLot; +Plain4, OmitAssign thorough), every complete behaviour is replayed into okane (verdict, rejected entry, register amounts, balances, no panic), and random ledgers far outside the bound are recorded from the hooked code and validated event by event against the specification.", "note": _LEDGER_NOTE, "technique": _LEDGER_TECH},
+ "C02": {"text": "TLC checks AssertionsTrue (every logged assertion re-evaluated on an independent fold of the register in file order) on the bounded model (scripts Assert, Deferred, DeducePrec, Alias); behaviours are replayed into okane comparing verdict, the posting line the diagnostic points at and the computed balance it reports; recorded traces bind the account balance after every posting.", "note": _LEDGER_NOTE + " One recorded finding (assert_after_omitted_same_account).", "technique": _LEDGER_TECH},
+ "C03": {"text": "TLC checks AssignExact and the deduced half of AcceptedBalanced (sum of balancing values + deduced = 0 per commodity) on scripts OmitAssign and DeducePrec; behaviours are replayed into okane comparing the inferred posting amounts, all balances and rejections (two unconstrained postings, `= 0` on a multi-commodity account); recorded traces bind deduced amounts and balances after each step.", "note": _LEDGER_NOTE + " The shape `assignment after an omitted posting on the same account in one transaction` is excluded (the two inferred amounts define each other).", "technique": _LEDGER_TECH},
+})
+
 _PENDING = "check not built yet in this session; the TLA+ design for it is in DESIGN.md §7 and it is not claimed until its quick check runs clean on the unchanged tree"
 NOT_APPLICABLE = {p: _PENDING for p in
-  ["C01","C02","C03","C04","C05","C06","C07","C08","C09","C10","C11","C12","C13","C14","C15","C16","C17","C18","C19"]}
+  ["C04","C05","C06","C07","C08","C09","C10","C11","C12","C13","C14","C15","C16","C17","C18","C19"]}
